@@ -381,7 +381,7 @@ func vc17RbfCase(t *rapid.T, st *vstats.Collector, c *vc17Chan, k int,
 								return pr()
 							})
 						if de.SendWhen.IsSome() && !ok {
-							fail("harness: send predicate false "+
+							fail("harness: send predicate false " +
 								"on a clean channel")
 						}
 						if !de.TargetPeer.IsEqual(&sd.env.ChanPeer) {
